@@ -36,6 +36,10 @@ def gen(tier, rng):
         mn, mx = rng.choice([0, 0, 1, 2, 3]), rng.choice([0, 1, 1, 2, 3])
         faults = sg.random_faults(rng, 10, rng.choice([0.3, 0.6, 0.9]), kind)
         timed = rng.random() < 0.2
+        if timed:
+            # a probe answered late takes real time (the client's 300 ms read timeout) during which other parked connections
+            # reach the 300 ms idle timeout: the model has no clock for that, so the two are not combined
+            faults = [f for f in faults if ":s" not in f]
         extra = ["m"] * rng.choice([0, 1, 2, 4])
         if timed:
             extra += ["W", "m"] + ["m"] * mn
